@@ -318,6 +318,12 @@ def compare(a, b, names=None):
         d = abs(x - y)
         t, _ = tol_for(k, a, b)
         t = t * max(1.0, abs(x), abs(y))
+        if k.startswith("chi_") and "(W" in k and hasattr(a, "eall") and hasattr(b, "eall"):
+            # each partition drops its own set of terms with residue <= 1e-8 (which ones depends on the eigenvectors chosen
+            # inside degenerate subspaces): the two values may differ by what either of them left out (same bound as against
+            # the oracle; found by the thorough tier: exchange model, beta = 1, 2.5e-7 between one block and {N})
+            kk = int(k[k.index("(W") + 2:-1])
+            t += susc_dropped_bound(a, kk) + susc_dropped_bound(b, kk)
         if not (d <= t) and (worst is None or d / t > worst[1] / worst[2]):
             worst = (k, d, t, x, y)
     return worst
